@@ -300,6 +300,11 @@ Inductive sop : Type :=
 Definition s_add_proc (s : spec) (d : nat) : spec :=
   mkSpec (s_inputs s) (s_outputs s) (s_doms s) (s_procs s ++ [d]) (s_bonds s).
 
+Definition s_add_dom (s : spec) (d : nat * nat) : spec :=
+  mkSpec (s_inputs s) (s_outputs s) (s_doms s ++ [d]) (s_procs s) (s_bonds s).
+Definition s_add_output (s : spec) : spec :=
+  mkSpec (s_inputs s) (S (s_outputs s)) (s_doms s) (s_procs s) (s_bonds s).
+
 Definition spec_apply (s : spec) (o : sop) : spec :=
   match o with
   | SNop => s
@@ -308,7 +313,7 @@ Definition spec_apply (s : spec) (o : sop) : spec :=
       mkSpec (s_inputs s - 1) (s_outputs s) (s_doms s) (s_procs s)
              (map (fun p => (ren_BI r (fst p), snd p))
                   (filter (fun p => negb (is_BI r (fst p))) (s_bonds s)))
-  | SAddOutput => mkSpec (s_inputs s) (S (s_outputs s)) (s_doms s) (s_procs s) (s_bonds s)
+  | SAddOutput => s_add_output s
   | SDelOutput r =>
       mkSpec (s_inputs s) (s_outputs s - 1) (s_doms s) (s_procs s)
              (map (fun p => (fst p, ren_BO r (snd p)))
@@ -317,13 +322,11 @@ Definition spec_apply (s : spec) (o : sop) : spec :=
   | SAddBond a b => s_add_bond s a b
   | SDelBondOf e => with_bonds s (filter (fun p => negb (ep_eqb (snd p) e)) (s_bonds s))
   | SAttach a b =>
-      let s1 := mkSpec (s_inputs s) (s_outputs s) (s_doms s ++ [(2, 1)]) (s_procs s) (s_bonds s) in
-      let s2 := s_add_proc s1 (length (s_doms s1) - 1) in
-      let p := length (s_procs s2) - 1 in
+      let p := length (s_procs s) in
+      let s2 := s_add_proc (s_add_dom s (2, 1)) (length (s_doms s)) in
       let s3 := s_add_bond s2 (Name (PI p 0)) a in
       let s4 := s_add_bond s3 (Name (PI p 1)) b in
-      let s5 := mkSpec (s_inputs s4) (S (s_outputs s4)) (s_doms s4) (s_procs s4) (s_bonds s4) in
-      s_add_bond s5 (Name (PO p 0)) (Name (BO (s_outputs s5 - 1)))
+      s_add_bond (s_add_output s4) (Name (PO p 0)) (Name (BO (s_outputs s)))
   end.
 
 (* which abstract operation a concrete call is, in state b *)
